@@ -914,6 +914,30 @@ def policy(repo, tier):
 
 from contracts import C17_sites  # noqa: E402
 
+
+def known_findings(kf, violations, repo, tier):
+    """Recorded genuine defects (known_findings.json): each witness document is replayed natively; a finding that still fails
+    prints KNOWN-FINDING and covers exactly its own obligation ids (every other refuted obligation stays a violation)."""
+    import json
+    import os
+    import subprocess
+    out = []
+    vio_ids = {v["id"] for v in violations}
+    for f in kf:
+        req = {"property": "C17", "obligation": f["obligation"], "known_finding": f["id"], "witness": f.get("witness"), "repo": repo}
+        try:
+            p = subprocess.run(["/venv/bin/python", os.path.join(os.path.dirname(os.path.dirname(os.path.abspath(__file__))), "replay", "run.py")],
+                               input=json.dumps(req), capture_output=True, text=True, timeout=600, env=dict(os.environ, VERIF_REPO=repo))
+            lines = [l for l in p.stdout.splitlines() if l.startswith("{")]
+            res = json.loads(lines[-1]) if lines else {"reproduced": False}
+        except Exception as e:  # noqa
+            res = {"reproduced": False, "note": str(e)}
+        still = bool(res.get("reproduced"))
+        covers = [o for o in f.get("covers", [f["obligation"]]) if o in vio_ids] if still else []
+        out.append({"finding": f["id"], "still_fails": still, "line": f"{f['id']}: {f['what']}", "covers": covers,
+                    "witness_replay": str(res.get("observed", res.get("note", "")))[:400]})
+    return out
+
 EXTRA = [policy, C17_sites.tokeniser_configuration, C17_sites.input_provenance, C17_sites.native_scope]
 
 TRUSTED = ["html.parser.HTMLParser: feed(text) calls the overridden handlers with an event sequence; <x/> = Start then End; "
